@@ -107,10 +107,10 @@ def cache_diff(a: dict[str, Any], b: dict[str, Any]) -> list[str]:
 def run(ctx: common.Ctx) -> None:
     quick = ctx.tier == "quick"
     scale = float(os.environ.get("VERIF_SCALE", "1"))
-    n_prog = max(6, int((12 if quick else 80) * scale))
+    n_prog = max(6, int((12 if quick else 40) * scale))
     seeds = ["0", "1", "2", "3"] if quick else ["0", "1", "2", "3", "17", "1234", "4294967295", "random"]
-    n_perm = max(4, int((60 if quick else 1200) * scale))
-    n_hist = max(4, int((24 if quick else 500) * scale))
+    n_perm = max(4, int((60 if quick else 600) * scale))
+    n_hist = max(4, int((24 if quick else 240) * scale))
     ctx.rule = ("(a) program x PYTHONHASHSEED x format in fresh processes incl. the whole typeshed closure; (b) cycle-free histgen "
                 "projects x permutations of the file arguments; (c) probe build after a random prelude of unrelated builds (+ daemon "
                 "session) vs a brand-new interpreter; non-trivial = comparison whose output has >=5 diagnostics or whose cache has >=20 records")
